@@ -137,7 +137,7 @@ Definition step (e : env) (s : state) (o : op) : outcome state output :=
   | Slash i power factor =>
       if val_ok e i then lift (fun _ => ONone) (slash s i power factor) else Err
   | Jail i => if val_ok e i then lift (fun _ => ONone) (jail s i) else Err
-  | Unjail i => if val_ok e i then lift (fun _ => ONone) (unjail s i) else Err
+  | Unjail i => if val_ok e i then lift (fun _ => ONone) (unjail e s i) else Err
   | EndBlock m => Ok (end_block s m) ONone
   | Mint a i amt =>
       if user_ok e a && val_ok e i then lift OShares (mint e s a i amt) else Err
